@@ -730,7 +730,7 @@ def run(chk):
     if not getattr(chk, 'no_lean', False):
         chk.lean_stage([META['lean_module'], 'Placement.Props.C11'], exe=True)
     quick = chk.tier == 'quick'
-    n_cases = 300 if quick else 3000
+    n_cases = 300 if quick else 2000
     nops = 40
     k = 3 if quick else 6
     procs = min(16, os.cpu_count() or 4)
